@@ -85,11 +85,17 @@ func (w *recordWorkload) Next(block int) []rig.Tx {
 		if rng.Intn(3) == 0 {
 			nmsg = 2 + rng.Intn(6)
 		}
+		huge := !w.quiet && block%23 == 9 && i == 0
+		if huge {
+			// several hundred messages in one transaction, most of them byte-identical: per-transaction counters cross the
+			// one-byte boundary several times
+			nmsg = pick(rng, 258, 300, 520, 700, 1100)
+		}
 		var msgs []sdk.Msg
 		kind := ""
 		for j := 0; j < nmsg; j++ {
 			cs, k := w.contents()
-			if j > 0 && rng.Intn(2) == 0 { // byte-identical message inside one tx
+			if j > 0 && (rng.Intn(2) == 0 || (huge && rng.Intn(40) != 0)) { // byte-identical message inside one tx
 				msgs = append(msgs, msgs[j-1])
 				kind += "dup-in-tx,"
 				continue
@@ -97,7 +103,11 @@ func (w *recordWorkload) Next(block int) []rig.Tx {
 			kind += k + ","
 			msgs = append(msgs, &recordtypes.MsgCreateRecord{Contents: cs, Creator: a.Addr.String()})
 		}
-		out = append(out, r.Mk(a, &recTag{Kind: fmt.Sprintf("n=%d", nmsg)}, msgs...))
+		nk := fmt.Sprintf("n=%d", nmsg)
+		if nmsg > 8 {
+			nk = "n>256"
+		}
+		out = append(out, r.Mk(a, &recTag{Kind: nk}, msgs...))
 	}
 	return out
 }
